@@ -119,7 +119,7 @@ class GeometricCredit(ObjectWithSchema):
         """
         Return the credit associated with a given attempt number
         """
-        if attempt == 1:
+        if attempt <= 1:
             return 1
         credit = self.config['factor'] ** (attempt - 1)
         return round(credit, 4)
@@ -156,7 +156,7 @@ class ReciprocalCredit(ObjectWithSchema):
         """
         Return the credit associated with a given attempt number
         """
-        if attempt == 1:
+        if attempt <= 1:
             return 1
         credit = 1.0 / attempt
         return round(credit, 4)
